@@ -779,3 +779,31 @@ pub proof fn lemma_c03<P: Prefix, T>(t: Seq<Node<P, T>>, live: ISet<int>, sts: S
         lemma_lex_irrefl(kb(t, ys[i]));
     }
 }
+
+/// [C09] "longest-prefix match returns the last element of cover(q)": the entry after which nothing is pending is the
+/// longest stored key covering q, i.e. exactly what lpm_spec (the contract of get_lpm / get_lpm_prefix / get_lpm_mut) demands
+pub proof fn lemma_cover_last_is_lpm<P: Prefix, T>(t: Seq<Node<P, T>>, idx0: Option<usize>, idx1: Option<usize>, q: Seq<bool>, n: int)
+    requires
+        twf(t),
+        cover_yields(t, tlive(t), idx0, idx1, q, n),
+        forall|m: int| !#[trigger] pending(t, tlive(t), idx1, q, m),
+        // everything yielded before n is shorter than n (cover yields in strictly increasing length)
+        forall|m: int| stored(t, tlive(t), m) && pre(kb(t, m), q) && !#[trigger] pending(t, tlive(t), idx0, q, m) ==> kb(t, m).len() < kb(t, n).len(),
+    ensures
+        lpm_spec(content(t, tlive(t)), q, Some((&t[n].prefix, &t[n].value.unwrap()))),
+{
+    let live = tlive(t);
+    lemma_twf_live(t);
+    lemma_content_at(t, live, n);
+    lemma_glob(t, live);
+    let m_ = content(t, live);
+    assert forall|k: Seq<bool>| #[trigger] covers(m_, k, q) implies k.len() <= kb(t, n).len() by {
+        lemma_content_dom(t, live, k);
+        let i = node_of(t, live, k);
+        if i != n {
+            if pending(t, live, idx0, q, i) {
+                assert(pending(t, live, idx1, q, i));
+            }
+        }
+    }
+}
